@@ -11,7 +11,7 @@ namespace Rsa.Heap
 
 /-! ### reading -/
 
-theorem fieldWr_subset (p : String × Field) : ∀ l ∈ fieldWr p, l ∈ fieldLocs p.2 := by
+theorem fieldWr_subset (d : Disc) (p : String × Field) : ∀ l ∈ fieldWr d p, l ∈ fieldLocs p.2 := by
   intro l hl
   obtain ⟨n, f⟩ := p
   cases f with
@@ -26,23 +26,23 @@ theorem fieldWr_subset (p : String × Field) : ∀ l ∈ fieldWr p, l ∈ fieldL
     · simpa [fieldLocs] using hl
     · simp at hl
 
-theorem cellWr_subset (c : Cell) : ∀ l ∈ cellWr c, l ∈ cellReach c := by
+theorem cellWr_subset (d : Disc) (c : Cell) : ∀ l ∈ cellWr d c, l ∈ cellReach c := by
   intro l hl
   simp only [cellWr, List.mem_flatMap] at hl
   obtain ⟨p, hp, hl⟩ := hl
   simp only [cellReach, List.mem_flatMap]
-  exact ⟨p, hp, fieldWr_subset p l hl⟩
+  exact ⟨p, hp, fieldWr_subset d p l hl⟩
 
-theorem wr_subset_reach (h : Heap) (r : Loc) : ∀ l ∈ wr h r, l ∈ reach h r := by
+theorem wr_subset_reach (d : Disc) (h : Heap) (r : Loc) : ∀ l ∈ wr d h r, l ∈ reach h r := by
   intro l hl
   simp only [wr, List.mem_cons] at hl
   simp only [reach, List.mem_cons]
   rcases hl with hl | hl
   · exact Or.inl hl
-  · exact Or.inr (cellWr_subset _ l hl)
+  · exact Or.inr (cellWr_subset d _ l hl)
 
 theorem root_mem_reach (h : Heap) (r : Loc) : r ∈ reach h r := by simp [reach]
-theorem root_mem_wr (h : Heap) (r : Loc) : r ∈ wr h r := by simp [wr]
+theorem root_mem_wr (d : Disc) (h : Heap) (r : Loc) : r ∈ wr d h r := by simp [wr]
 
 theorem lookupField_some {fs : List (String × Field)} {name : String} {f : Field}
     (hl : lookupField fs name = some f) : (name, f) ∈ fs := by
@@ -172,21 +172,21 @@ theorem exec_cell (h : Heap) (a : Loc) (i : Instr) (l : Loc) : CellFate h (exec 
     · left; rfl
 
 /-- an instruction writes only into the footprint of its receiver or into fresh locations -/
-theorem exec_frame (h : Heap) (a : Loc) (i : Instr) (l : Loc) (hl : l < h.next)
-    (hw : l ∉ wr h a) : (exec h a i).cells l = h.cells l := by
-  have hla : l ≠ a := fun e => hw (e ▸ root_mem_wr h a)
-  have hcw : l ∉ cellWr (h.cells a) := fun e => hw (by simp [wr, e])
+theorem exec_frame (d : Disc) (h : Heap) (a : Loc) (i : Instr) (hok : i.ok d = true) (l : Loc)
+    (hl : l < h.next) (hw : l ∉ wr d h a) : (exec h a i).cells l = h.cells l := by
+  have hla : l ≠ a := fun e => hw (e ▸ root_mem_wr d h a)
+  have hcw : l ∉ cellWr d (h.cells a) := fun e => hw (by simp [wr, e])
   cases i with
   | newArr field shape vals =>
     simp only [exec, upd_other hla]
     apply writeVals_other
     simp only [List.mem_range'_1]
     omega
-  | newDict field d =>
+  | newDict field dd =>
     simp only [exec, upd_other hla]
     have : l ≠ h.next := by omega
     rw [upd_other this]
-  | setDict field d =>
+  | setDict field dd =>
     simp only [exec]
     split
     · rename_i l0 hlk
@@ -198,7 +198,8 @@ theorem exec_frame (h : Heap) (a : Loc) (i : Instr) (l : Loc) (hl : l < h.next)
         refine ⟨_, hm, ?_⟩
         have hwd : writableDict field.name = true := by
           cases field <;> simp [writableDict, DictField.name]
-        simp [fieldWr, hwd, e]
+        have hd : (d == Disc.assignInto) = true := by simpa [Instr.ok] using hok
+        simp [fieldWr, hwd, hd, e]
       simp [upd_other this]
     · rfl
   | setEls field vals =>
@@ -220,15 +221,15 @@ theorem exec_frame (h : Heap) (a : Loc) (i : Instr) (l : Loc) (hl : l < h.next)
 /-! ### reach / footprint only grow by fresh locations -/
 
 /-- `reach` and `wr` of `r` in `h'` consist of old members and locations allocated in between -/
-def Grows (h h' : Heap) (r : Loc) : Prop :=
+def Grows (d : Disc) (h h' : Heap) (r : Loc) : Prop :=
   (∀ l ∈ reach h' r, l ∈ reach h r ∨ (h.next ≤ l ∧ l < h'.next)) ∧
-  (∀ l ∈ wr h' r, l ∈ wr h r ∨ (h.next ≤ l ∧ l < h'.next))
+  (∀ l ∈ wr d h' r, l ∈ wr d h r ∨ (h.next ≤ l ∧ l < h'.next))
 
-theorem Grows.refl (h : Heap) (r : Loc) : Grows h h r :=
+theorem Grows.refl (d : Disc) (h : Heap) (r : Loc) : Grows d h h r :=
   ⟨fun l hl => Or.inl hl, fun l hl => Or.inl hl⟩
 
-theorem Grows.trans {h1 h2 h3 : Heap} {r : Loc} (h12 : Grows h1 h2 r) (h23 : Grows h2 h3 r)
-    (n12 : h1.next ≤ h2.next) (n23 : h2.next ≤ h3.next) : Grows h1 h3 r := by
+theorem Grows.trans {d : Disc} {h1 h2 h3 : Heap} {r : Loc} (h12 : Grows d h1 h2 r)
+    (h23 : Grows d h2 h3 r) (n12 : h1.next ≤ h2.next) (n23 : h2.next ≤ h3.next) : Grows d h1 h3 r := by
   constructor
   · intro l hl
     rcases h23.1 l hl with h | h
@@ -243,7 +244,7 @@ theorem Grows.trans {h1 h2 h3 : Heap} {r : Loc} (h12 : Grows h1 h2 r) (h23 : Gro
       · exact Or.inr ⟨h'.1, by omega⟩
     · exact Or.inr ⟨by omega, h.2⟩
 
-theorem grows_of_fate (h h' : Heap) (a r : Loc) (hf : CellFate h h' a r) : Grows h h' r := by
+theorem grows_of_fate (d : Disc) (h h' : Heap) (a r : Loc) (hf : CellFate h h' a r) : Grows d h h' r := by
   rcases hf with he | ⟨v, he⟩ | ⟨d, he⟩ | ⟨hra, name, f, he, hfresh⟩
   · constructor <;> intro l hl
     · left; simpa [reach, he] using hl
@@ -273,10 +274,10 @@ theorem grows_of_fate (h h' : Heap) (a r : Loc) (hf : CellFate h h' a r) : Grows
           simp only [wr, List.mem_cons, cellWr, List.mem_flatMap]
           exact Or.inr ⟨p, hp, hl⟩
         · subst hp
-          exact Or.inr (hfresh l (fieldWr_subset _ l hl))
+          exact Or.inr (hfresh l (fieldWr_subset d _ l hl))
 
-theorem exec_grows (h : Heap) (a : Loc) (i : Instr) (r : Loc) : Grows h (exec h a i) r :=
-  grows_of_fate h _ a r (exec_cell h a i r)
+theorem exec_grows (d : Disc) (h : Heap) (a : Loc) (i : Instr) (r : Loc) : Grows d h (exec h a i) r :=
+  grows_of_fate d h _ a r (exec_cell h a i r)
 
 /-! ### instruction lists (hence every operation) -/
 
@@ -287,36 +288,37 @@ theorem execAll_next_le (h : Heap) (a : Loc) (is : List Instr) : h.next ≤ (exe
     simp only [execAll, List.foldl_cons]
     exact Nat.le_trans (exec_next_le h a i) (ih (exec h a i))
 
-theorem execAll_grows (h : Heap) (a : Loc) (is : List Instr) (r : Loc) :
-    Grows h (execAll h a is) r := by
+theorem execAll_grows (d : Disc) (h : Heap) (a : Loc) (is : List Instr) (r : Loc) :
+    Grows d h (execAll h a is) r := by
   induction is generalizing h with
-  | nil => exact Grows.refl h r
+  | nil => exact Grows.refl d h r
   | cons i is ih =>
     simp only [execAll, List.foldl_cons]
-    exact Grows.trans (exec_grows h a i r) (ih (exec h a i)) (exec_next_le h a i)
+    exact Grows.trans (exec_grows d h a i r) (ih (exec h a i)) (exec_next_le h a i)
       (execAll_next_le (exec h a i) a is)
 
-theorem execAll_frame (h : Heap) (a : Loc) (is : List Instr) (l : Loc) (hl : l < h.next)
-    (hw : l ∉ wr h a) : (execAll h a is).cells l = h.cells l := by
+theorem execAll_frame (d : Disc) (h : Heap) (a : Loc) (is : List Instr)
+    (hok : ∀ i ∈ is, i.ok d = true) (l : Loc) (hl : l < h.next)
+    (hw : l ∉ wr d h a) : (execAll h a is).cells l = h.cells l := by
   induction is generalizing h with
   | nil => simp [execAll]
   | cons i is ih =>
     simp only [execAll, List.foldl_cons]
-    have h1 := exec_frame h a i l hl hw
+    have h1 := exec_frame d h a i (hok i (by simp)) l hl hw
     have hn := exec_next_le h a i
-    have hw' : l ∉ wr (exec h a i) a := by
+    have hw' : l ∉ wr d (exec h a i) a := by
       intro e
-      rcases (exec_grows h a i a).2 l e with e' | e'
+      rcases (exec_grows d h a i a).2 l e with e' | e'
       · exact hw e'
       · omega
-    have := ih (exec h a i) (by omega) hw'
+    have := ih (exec h a i) (fun j hj => hok j (by simp [hj])) (by omega) hw'
     simp only [execAll] at this
     rw [this, h1]
 
 /-! ### content depends only on the cells in reach -/
 
-theorem content_congr (h h' : Heap) (r : Loc) (hc : ∀ l ∈ reach h r, h'.cells l = h.cells l) :
-    content h' r = content h r ∧ reach h' r = reach h r ∧ wr h' r = wr h r := by
+theorem content_congr (d : Disc) (h h' : Heap) (r : Loc) (hc : ∀ l ∈ reach h r, h'.cells l = h.cells l) :
+    content h' r = content h r ∧ reach h' r = reach h r ∧ wr d h' r = wr d h r := by
   have hr : h'.cells r = h.cells r := hc r (root_mem_reach h r)
   refine ⟨?_, by simp [reach, hr], by simp [wr, hr]⟩
   simp only [content, hr]
@@ -338,19 +340,28 @@ theorem content_congr (h h' : Heap) (r : Loc) (hc : ∀ l ∈ reach h r, h'.cell
     simp only [readField, Prod.mk.injEq, Content.dict.injEq, true_and]
     rw [hsub l0 (by simp [fieldLocs])]
 
+/-- every operation compiles to instructions its discipline allows -/
+theorem compile_ok (d : Disc) (h : Heap) (a : Loc) (op : Op) : ∀ i ∈ compile d h a op, i.ok d = true := by
+  intro i hi
+  cases op <;> cases d <;>
+    simp only [compile, reorderInstrs, List.mem_cons, List.mem_nil_iff, or_false] at hi <;>
+    (first
+      | (subst hi; rfl)
+      | (rcases hi with hi | hi <;> subst hi <;> rfl))
+
 /-! ### sides (lists of root objects), separation, closedness -/
 
 /-- no location an operation on one side may write is readable from the other side -/
-def Sep (h : Heap) (as bs : List Loc) : Prop :=
-  (∀ l ∈ wrSide h as, l ∉ reachSide h bs) ∧ (∀ l ∈ wrSide h bs, l ∉ reachSide h as)
+def Sep (d : Disc) (h : Heap) (as bs : List Loc) : Prop :=
+  (∀ l ∈ wrSide d h as, l ∉ reachSide h bs) ∧ (∀ l ∈ wrSide d h bs, l ∉ reachSide h as)
 
 /-- everything reachable is allocated -/
 def Closed (h : Heap) (rs : List Loc) : Prop := ∀ l ∈ reachSide h rs, l < h.next
 
 /-- the invariant of the frame argument -/
-def Inv (h : Heap) (as bs : List Loc) : Prop := Sep h as bs ∧ Closed h as ∧ Closed h bs
+def Inv (d : Disc) (h : Heap) (as bs : List Loc) : Prop := Sep d h as bs ∧ Closed h as ∧ Closed h bs
 
-theorem Inv.symm {h : Heap} {as bs : List Loc} (hi : Inv h as bs) : Inv h bs as :=
+theorem Inv.symm {d : Disc} {h : Heap} {as bs : List Loc} (hi : Inv d h as bs) : Inv d h bs as :=
   ⟨⟨hi.1.2, hi.1.1⟩, hi.2.2, hi.2.1⟩
 
 theorem flatMap_congr_mem {α β : Type} (l : List α) (f g : α → List β)
@@ -365,29 +376,29 @@ theorem mem_reachSide {h : Heap} {rs : List Loc} {l : Loc} :
     l ∈ reachSide h rs ↔ ∃ r ∈ rs, l ∈ reach h r := by
   simp [reachSide, List.mem_flatMap]
 
-theorem mem_wrSide {h : Heap} {rs : List Loc} {l : Loc} :
-    l ∈ wrSide h rs ↔ ∃ r ∈ rs, l ∈ wr h r := by
+theorem mem_wrSide {d : Disc} {h : Heap} {rs : List Loc} {l : Loc} :
+    l ∈ wrSide d h rs ↔ ∃ r ∈ rs, l ∈ wr d h r := by
   simp [wrSide, List.mem_flatMap]
 
-theorem sepB_iff (h : Heap) (as bs : List Loc) : sepB h as bs = true ↔ Sep h as bs := by
+theorem sepB_iff (d : Disc) (h : Heap) (as bs : List Loc) : sepB d h as bs = true ↔ Sep d h as bs := by
   simp [sepB, Sep, disjointL, List.all_eq_true]
 
 /-- one operation on an object of side `as`: nothing readable from side `bs` changes,
     and the invariant is re-established -/
-theorem step_side (h : Heap) (as bs : List Loc) (hi : Inv h as bs) (a : Loc) (ha : a ∈ as)
-    (op : Op) :
-    contentSide (step h a op) bs = contentSide h bs ∧ Inv (step h a op) as bs := by
+theorem step_side (d : Disc) (h : Heap) (as bs : List Loc) (hi : Inv d h as bs) (a : Loc)
+    (ha : a ∈ as) (op : Op) :
+    contentSide (step d h a op) bs = contentSide h bs ∧ Inv d (step d h a op) as bs := by
   obtain ⟨⟨hs1, hs2⟩, hca, hcb⟩ := hi
-  let h' := step h a op
+  let h' := step d h a op
   have hn : h.next ≤ h'.next := execAll_next_le h a _
-  have hgrow : ∀ r, Grows h h' r := fun r => execAll_grows h a _ r
+  have hgrow : ∀ r, Grows d h h' r := fun r => execAll_grows d h a _ r
   -- cells readable from `bs` are untouched
   have hcell : ∀ l ∈ reachSide h bs, h'.cells l = h.cells l := by
     intro l hl
-    apply execAll_frame h a _ l (hcb l hl)
+    apply execAll_frame d h a _ (compile_ok d h a op) l (hcb l hl)
     intro hw
     exact hs1 l (mem_wrSide.mpr ⟨a, ha, hw⟩) hl
-  have hb : ∀ b ∈ bs, content h' b = content h b ∧ reach h' b = reach h b ∧ wr h' b = wr h b := by
+  have hb : ∀ b ∈ bs, content h' b = content h b ∧ reach h' b = reach h b ∧ wr d h' b = wr d h b := by
     intro b hb
     apply content_congr
     intro l hl
@@ -397,7 +408,7 @@ theorem step_side (h : Heap) (as bs : List Loc) (hi : Inv h as bs) (a : Loc) (ha
     apply flatMap_congr_mem
     intro b hbm
     exact (hb b hbm).2.1
-  have hwrB : wrSide h' bs = wrSide h bs := by
+  have hwrB : wrSide d h' bs = wrSide d h bs := by
     simp only [wrSide]
     apply flatMap_congr_mem
     intro b hbm
@@ -422,7 +433,7 @@ theorem step_side (h : Heap) (as bs : List Loc) (hi : Inv h as bs) (a : Loc) (ha
     rcases (hgrow r).1 l hc with hold | hfresh
     · exact hs2 l hl (mem_reachSide.mpr ⟨r, hr, hold⟩)
     · obtain ⟨b, hbm, hlb⟩ := mem_wrSide.mp hl
-      have := hcb l (mem_reachSide.mpr ⟨b, hbm, wr_subset_reach h b l hlb⟩)
+      have := hcb l (mem_reachSide.mpr ⟨b, hbm, wr_subset_reach d h b l hlb⟩)
       omega
   · intro l hl
     obtain ⟨r, hr, hl⟩ := mem_reachSide.mp hl
